@@ -183,6 +183,13 @@ func ParseBlock(header *BlockHeader, compressedData []byte) (*Block, error) {
 		offset += consumed
 	}
 
+	// EntryCount lives in the block header, which no checksum covers. The writer
+	// always emits exactly EntryCount entries, so anything left over means the count
+	// (or the payload) was damaged: report it rather than silently dropping entries.
+	if offset != len(uncompressed) {
+		return nil, ErrCorruptedBlock
+	}
+
 	return &Block{
 		Header:  *header,
 		Entries: entries,
